@@ -161,6 +161,26 @@ HAND = [
                    '    d = _Generic(cs.u.ua, const short *: 1, short *: 2, default: 0), e = _Generic(vs.a, volatile int *: 1, int *: 2, default: 0), f = _Generic(ct, const int *: 1, int *: 2, default: 0),\n'
                    '    g = _Generic(cs.m[1], const int *: 1, int *: 2, default: 0), h = _Generic((const T){1, 2}, const int *: 1, int *: 2, default: 0);\n',
      {'a': 1, 'b': 1, 'c': 1, 'd': 1, 'e': 1, 'f': 1, 'g': 1, 'h': 1}, None),
+    # a bit-field member inherits the qualifiers of the object it is reached through (6.5.2.3p3); the rejected
+    # modifications show it (typeof of a bit-field is rejected by gcc and clang, so it cannot be validated)
+    ('bitfield-qual-bad1', 'struct B { unsigned x : 3; int y : 5; }; const struct B cb; void f(void) { cb.x = 1; }\n', 'reject', None),
+    ('bitfield-qual-bad2', 'struct B { unsigned x : 3; int y : 5; }; const struct B cb; void f(void) { cb.x++; }\n', 'reject', None),
+    ('bitfield-qual-bad3', 'struct B { unsigned x : 3; int y : 5; }; const struct B *pcb; void f(void) { --pcb->x; }\n', 'reject', None),
+    ('bitfield-qual-bad4', 'struct B { unsigned x : 3; int y : 5; }; const struct B *pcb; void f(void) { pcb->y += 2; }\n', 'reject', None),
+    ('bitfield-qual-ok', 'struct B { unsigned x : 3; int y : 5; }; struct B nb, *pb; void f(void) { nb.x = 1; nb.y++; --pb->x; pb->y += 2; }\nint a = 1;\n', {'a': 1}, None),
+    # the type of a concatenated string literal is decided by the prefixed part wherever it stands (6.4.5p5)
+    ('strlit-concat-prefix', 'int a = sizeof(L"ab" "c"), b = sizeof("ab" L"c"), c = sizeof(u"a" "b" "c"), d = sizeof("a" "b" U"c"), e = sizeof(U"a" "b"),\n'
+                             '    f = _Generic(u"ab" "c", unsigned short *: 1, char *: 2, default: 0), g = _Generic("ab" U"c", unsigned *: 1, char *: 2, default: 0),\n'
+                             '    h = sizeof(L"a" "b" L"c"), i = sizeof("a" "b");\n',
+     {'a': 16, 'b': 16, 'c': 8, 'd': 16, 'e': 12, 'f': 1, 'g': 1, 'h': 16, 'i': 3}, None),
+    # a string literal initialises an array only if the element types agree (6.7.9p14-15): same width is not enough
+    ('strinit-bad1', 'short a[] = u"ab";\n', 'reject', None),
+    ('strinit-bad2', 'int a[] = U"ab";\n', 'reject', None),
+    ('strinit-bad3', '_Bool a[] = "ab";\n', 'reject', None),
+    ('strinit-bad4', 'unsigned short a[] = U"ab";\n', 'reject', None),
+    ('strinit-bad5', 'char a[] = u"ab";\n', 'reject', None),
+    ('strinit-bad6', 'float a[] = U"ab";\n', 'reject', None),
+    ('strinit-ok', 'unsigned short a[] = u"ab"; unsigned b[] = U"ab"; unsigned char c[] = "ab"; signed char d[] = "ab"; char e[] = u8"ab"; unsigned char f[] = u8"ab"; const unsigned short g[3] = u"ab";\nint k = sizeof a + sizeof b + sizeof c;\n', {'k': 21}, None),
     ('decay-qual-bad1', 'struct S { int a[2]; }; const struct S cs; void f(void) { int *p = cs.a; }\n', 'reject', None),
     ('decay-qual-bad2', 'typedef int T[2]; const T ct; void g(int *); void f(void) { g(ct); }\n', 'reject', None),
     ('decay-qual-ok', 'struct S { int a[2]; }; const struct S cs; struct S s; void g(const int *); void f(void) { const int *p = cs.a; int *q = s.a; g(cs.a); g(q); }\nint a = 1;\n', {'a': 1}, None),
